@@ -21,7 +21,7 @@ M = [
  ('m22', 'C13', 'rsome/lp.py', "            if self.event_rest and index in self.event_adapt[0]:\n                self.event_adapt[0].remove(index)\n            else:", "            if self.event_rest and index in self.event_adapt[0]:\n                pass\n            else:", 'evtadapt does not remove scenarios from the remainder event'),
  ('m23', 'C13', 'rsome/dro.py', "                index.extend(list(start + size * edict[s] +\n                                  np.arange(size, dtype=int)))", "                index.extend(list(start + size * min(edict[s], 1) +\n                                  np.arange(size, dtype=int)))", 'rule_var maps every event beyond the second to the second one'),
  ('m24', 'C13', 'rsome/lp.py', "        self.depend[ldr_indices, indices] = 1\n", "        self.depend[ldr_indices, :indices.max() + 1] = 1\n", 'DecRule.adapt marks every component up to the largest requested one'),
- ('m25', 'C13', 'rsome/lp.py', "        if self.vtype in ['B', 'I']:\n            raise ValueError('No affine adaptation for integer variables.')\n", "", 'affine adaptation of integer decisions no longer rejected'),
+ ('m25', 'C13', 'rsome/lp.py', "        if any(vtypes[i] in 'BI' for i in np.array(self.indices).flatten()):\n            raise ValueError('No affine adaptation for integer variables.')\n", "", 'affine adaptation of integer decisions no longer rejected'),
  ('m26', 'C13', 'rsome/lp.py', "        if self.rand_adapt[dec_indices_flat, rand_indices_flat].any():\n            raise RuntimeError('Redefinition of adaptation is not allowed.')\n", "", 'dro: re-declaring an affine dependency no longer rejected'),
  ('m31', 'C12', 'rsome/dro.py', "        return self.sign * self.solution.objval", "        return self.solution.objval", 'dro.Model.get drops the sign of maximisation models'),
  ('m32', 'C12', 'rsome/lp.py', "            ldr_coeff[row_ind, col_ind] = self.var_coeff.get()\n", "            ldr_coeff[row_ind, col_ind] = self.var_coeff.get()[::-1]\n", 'DecRule.get returns the coefficients in reverse order'),
